@@ -210,4 +210,56 @@ theorem float_values_exact (xs : List Rat) : F.rleValues (F.create (fun a b => d
 example : F.numValues (F.create (fun a b => decide (a - b ≤ 1/1000 ∧ b - a ≤ 1/1000)) [0, 1/2, 1, 3/2 + 1/2000, 5]) = 5 :=
   (float_values_close_partial _ _).2
 
+/-! ## Compression (what makes the index *run-length*) -/
+
+/-- the arithmetic progression `a, a+d, …` of `n` terms -/
+def prog (a d : Int) (n : Nat) : List Int := (List.range n).map (fun (k : Nat) => a + d * (k : Int))
+
+/-- **A regular run is ONE item**: `create_rle` of an arithmetic progression of `n + 2` terms (any start, any stride —
+zero and negative included — any length) is the single triple `(a, d, n + 1)`; so regularly spaced positions cost
+O(1) index entries, and every later value that continues the run is absorbed (no spurious split). -/
+theorem create_progression (a d : Int) (n : Nat) : create (prog a d (n + 2)) = [⟨a, d, n + 1⟩] := by
+  induction n with
+  | zero => simp [create, prog, List.range_succ, rleAdd, Item.new, Item.add]
+  | succ n ih =>
+    unfold create prog at ih ⊢
+    rw [List.range_succ, List.map_append, List.foldl_append, ih]
+    simp only [List.map_cons, List.map_nil, List.foldl_cons, List.foldl_nil, rleAdd, Item.add]
+    have h1 : ¬ (n + 1 = 0) := by omega
+    have h2 : a + d * ((n + 2 : Nat) : Int) = a + d * (((n + 1 : Nat) : Int) + 1) := by push_cast; ring_nf
+    simp only [h1, if_false, h2, if_true]
+
+/-- **A value off the run starts a new item** (and only then): appending `v` to a progression of at least two terms
+keeps one item iff `v` is the next term. -/
+theorem create_progression_snoc (a d : Int) (n : Nat) (v : Int) :
+    create (prog a d (n + 2) ++ [v]) =
+      if v = a + d * ((n : Int) + 2) then [⟨a, d, n + 2⟩] else [⟨a, d, n + 1⟩, ⟨v, 0, 0⟩] := by
+  unfold create
+  rw [List.foldl_append]
+  have := create_progression a d n
+  unfold create at this
+  rw [this]
+  have h1 : ¬ (n + 1 = 0) := by omega
+  have h2 : a + d * (((n + 1 : Nat) : Int) + 1) = a + d * ((n : Int) + 2) := by push_cast; ring_nf
+  by_cases hv : v = a + d * ((n : Int) + 2)
+  · simp only [List.foldl_cons, List.foldl_nil, rleAdd, Item.add, h1, if_false, h2, hv, if_true]
+  · simp only [List.foldl_cons, List.foldl_nil, rleAdd, Item.add, Item.new, h1, if_false, h2, hv]
+
+/-- **Never more items than values**: `len(rle) ≤ len(xs)` and `num_values` is the number of values. -/
+theorem create_length_le (xs : List Int) : (create xs).length ≤ xs.length ∧ numValues (create xs) = xs.length := by
+  have hn : numValues (create xs) = xs.length := by rw [numValues_eq, values_roundtrip]
+  refine ⟨?_, hn⟩
+  have : ∀ items : List Item, items.length ≤ numValues items := by
+    intro items
+    induction items with
+    | nil => simp [numValues]
+    | cons it rest ih =>
+      simp only [numValues, List.map_cons, List.sum_cons, List.length_cons, Item.len] at ih ⊢
+      omega
+  exact hn ▸ this _
+
+example : create (prog 1000 (-8) 5000) = [⟨1000, -8, 4999⟩] := create_progression 1000 (-8) 4998
+example : create (prog 7 0 3 ++ [8]) = [⟨7, 0, 2⟩, ⟨8, 0, 0⟩] := by
+  rw [create_progression_snoc 7 0 1 8]; decide
+
 end TD.C16
